@@ -935,7 +935,17 @@ class _Norm(ast.NodeTransformer):
         self.generic_visit(node)
         # a hole that holds a string constant is literal text: f"{'/scripts'}/{x}" is f"/scripts/{x}"
         vals = []
+        flat = []
         for v in node.values:
+            # a hole that holds another f-string is that f-string's parts: f"{q}{f'{p}_tree'}{q}" is f"{q}{p}_tree{q}"
+            if isinstance(v, ast.FormattedValue) and isinstance(v.value, ast.JoinedStr) and v.format_spec is None and v.conversion == -1:
+                flat.extend(v.value.values)
+            elif isinstance(v, ast.FormattedValue) and v.format_spec is None and v.conversion == -1 and isinstance(v.value, ast.Call) \
+                    and isinstance(v.value.func, ast.Name) and v.value.func.id == "str" and len(v.value.args) == 1 and not v.value.keywords:
+                flat.append(ast.copy_location(ast.FormattedValue(value=v.value.args[0], conversion=-1, format_spec=None), v))      # {str(x)} is {x}
+            else:
+                flat.append(v)
+        for v in flat:
             if isinstance(v, ast.FormattedValue) and isinstance(v.value, ast.Constant) and isinstance(v.value.value, str) and v.format_spec is None \
                     and v.conversion == -1:
                 v = ast.copy_location(ast.Constant(value=v.value.value), v)
